@@ -67,6 +67,10 @@ def cyclic_models():
     for t1, t2 in (("not", "not"), ("nand", "nor"), ("xnor", "not"), ("not", "buf")):
         yield f"two-independent-inverter-loops::{t1}-{t2}", build({"a": ("input", []), "b": ("input", []), "g1": ("nand", ["a", "n1"]), "n1": (t1, ["g1"]), "g2": ("nor", ["b", "n2"]), "n2": (t2, ["g2"]),
                                                                     "o": ("xor", ["g1", "g2"])}, outputs=["o", "n1", "g2"])
+    yield "loop-read-through-a-net-and-its-buffer", build({"s": ("input", []), "r": ("input", []), "q": ("nor", ["r", "qn"]), "qn": ("nor", ["s", "q"]), "bq": ("buf", ["q"]), "x": ("xor", ["q", "bq"]),
+                                                           "y": ("xnor", ["qn", "bq", "q"]), "o": ("or", ["x", "y"])}, outputs=["o", "x", "bq"])
+    yield "loop-with-constants-beside-it", build({"a": ("input", []), "one": ("1", []), "zero": ("0", []), "g": ("nand", ["a", "h", "one"]), "h": ("or", ["g", "zero"]), "k": ("and", ["one", "a"]),
+                                                  "o": ("xor", ["h", "k"])}, outputs=["o", "one"])
     yield "hold-loops", build({"en": ("input", []), "d": ("input", []), "m": ("or", ["m_hold", "d"]), "m_hold": ("and", ["en", "m"]), "n": ("and", ["n_hold", "d"]), "n_hold": ("or", ["en", "n"])}, outputs=["m", "n"])
     yield "acyclic-control", build({"a": ("input", []), "b": ("input", []), "g": ("nand", ["a", "b"]), "h": ("nor", ["g", "a"])}, outputs=["h"])
 
@@ -207,10 +211,16 @@ def check_acyclic(P, c, acyc):
     if set(free_nodes(acyc)) != acyc.inputs():
         return {"problem": "result has undriven gates", "free": sorted(free_nodes(acyc))}
     aux = sorted(acyc.inputs() - c.inputs())
+    # an auxiliary input stands for the value of a node ON A LOOP (that is where the circuit was cut); a constant, an input or a
+    # gate outside every loop needs none
+    on_loop = {n for n in c.nodes() if any(n == s_ or n in c.graph.descendants(s_) for s_ in c.graph._succ[n])}
     cands = {}
     for a in aux:
         named = [f for f in c.nodes() if a == f or a.endswith("_" + f)]
-        cands[a] = sorted(named, key=len, reverse=True)[:1] or sorted(c.nodes())
+        best = sorted(named, key=len, reverse=True)[:1]
+        if best and best[0] not in on_loop:
+            return {"problem": "an auxiliary input was introduced for a node that lies on no loop", "auxiliary_input": a, "node": best[0], "type": c.type(best[0])}
+        cands[a] = best or sorted(on_loop)
     states = stable_states(c)
     for choice in itertools.product(*[cands[a] for a in aux]):
         if len(set(choice)) != len(choice):
